@@ -29,6 +29,18 @@ type Obj struct {
 
 func (o *Obj) Get() int       { o.L.Add("Get@%d", o.N); return o.N }
 func (o *Obj) Plus(k int) int { o.L.Add("Plus@%d(%d)", o.N, k); return o.N + k }
+
+// Id has the name of an environment function and another meaning.
+func (o *Obj) Id(i int) int { o.L.Add("Id@%d(%d)", o.N, i); return o.N*100 + i }
+
+// Label tolerates a nil receiver (a typed nil pointer still has its methods).
+func (o *Obj) Label() string {
+	if o == nil {
+		return "<none>"
+	}
+	o.L.Add("Label@%d", o.N)
+	return "#" + o.Name
+}
 func (o *Obj) String() string {
 	if o == nil {
 		return "<nil>"
